@@ -7,3 +7,5 @@ PROPERTIES
   C16_OnlyTargetChanges
   C16_MergeIsUnion
   C16_EmbeddedUnderPath
+  C16_ReloadSame
+  C16_RunLeavesTemplate
